@@ -1,0 +1,118 @@
+//go:build verif && (verif_all || verif_c11)
+// +build verif
+// +build verif_all verif_c11
+
+package gocql
+
+// Verification hooks (build tag `verif`) for the host selection policies: host objects with a
+// chosen address / datacenter / rack / tokens / state, a stub ExecutableQuery, snapshots of the
+// policies' copy-on-write lists, injected replica tables and a seedable replica shuffle.
+// Add-only; the policies themselves are driven through their public API.
+
+import (
+	"context"
+	"errors"
+	"math/rand"
+	"net"
+	"sort"
+	"time"
+)
+
+// VerifNewHost builds a HostInfo (state UP).
+func VerifNewHost(hostID string, addr net.IP, dc, rack string, tokens []string) *HostInfo {
+	return &HostInfo{hostId: hostID, connectAddress: addr, rpcAddress: addr, peer: addr, port: 9042,
+		dataCenter: dc, rack: rack, tokens: tokens}
+}
+
+// VerifSetHostUp sets the host's state (what the session does on UP/DOWN events before telling the policy).
+func VerifSetHostUp(h *HostInfo, up bool) {
+	if up {
+		h.setState(NodeUp)
+	} else {
+		h.setState(NodeDown)
+	}
+}
+
+// VerifPolicyLists returns the copy-on-write lists of a policy (fallback lists first) and, for a
+// token-aware policy, its own host list.
+func VerifPolicyLists(p HostSelectionPolicy) (layers [][]*HostInfo, taHosts []*HostInfo, isTA bool) {
+	switch q := p.(type) {
+	case *roundRobinHostPolicy:
+		return [][]*HostInfo{q.hosts.get()}, nil, false
+	case *dcAwareRR:
+		return [][]*HostInfo{q.localHosts.get(), q.remoteHosts.get()}, nil, false
+	case *rackAwareRR:
+		return [][]*HostInfo{q.hosts[0].get(), q.hosts[1].get(), q.hosts[2].get()}, nil, false
+	case *tokenAwareHostPolicy:
+		l, _, _ := VerifPolicyLists(q.fallback)
+		return l, q.hosts.get(), true
+	}
+	panic("verif: unknown policy type")
+}
+
+// VerifTAInit does what tokenAwareHostPolicy.Init does, without a Session: keyspace metadata is
+// unavailable (so replica tables are only the injected ones) and the session keyspace is `sessionKs`.
+func VerifTAInit(p HostSelectionPolicy, sessionKs string) {
+	t := p.(*tokenAwareHostPolicy)
+	t.mu.Lock()
+	defer t.mu.Unlock()
+	t.getKeyspaceMetadata = func(string) (*KeyspaceMetadata, error) { return nil, errors.New("verif: no keyspace metadata") }
+	t.getKeyspaceName = func() string { return sessionKs }
+	t.logger = nopLogger{}
+}
+
+// VerifTASetReplicas installs the replica table of one keyspace (token string -> hosts) into the
+// policy's cluster metadata, the way updateReplicas does (copy-on-write of the map).
+func VerifTASetReplicas(p HostSelectionPolicy, keyspace string, tokens []string, hosts [][]*HostInfo) bool {
+	t := p.(*tokenAwareHostPolicy)
+	t.mu.Lock()
+	defer t.mu.Unlock()
+	meta := t.getMetadataForUpdate()
+	if meta.tokenRing == nil {
+		return false
+	}
+	tab := make(tokenRingReplicas, len(tokens))
+	for i := range tokens {
+		tab[i] = hostTokens{token: meta.tokenRing.partitioner.ParseString(tokens[i]), hosts: hosts[i]}
+	}
+	sort.Sort(tab)
+	newReplicas := make(map[string]tokenRingReplicas, len(meta.replicas)+1)
+	for ks, r := range meta.replicas {
+		newReplicas[ks] = r
+	}
+	newReplicas[keyspace] = tab
+	meta.replicas = newReplicas
+	t.metadata.Store(meta)
+	return true
+}
+
+// VerifSeedShuffle reseeds the generator used by shuffleHosts.
+func VerifSeedShuffle(seed int64) {
+	mutRandr.Lock()
+	randr = rand.New(rand.NewSource(seed))
+	mutRandr.Unlock()
+}
+
+type verifQuery struct {
+	ks string
+	rk []byte
+}
+
+// VerifQuery is a stub ExecutableQuery with the given keyspace and routing key (nil = none).
+func VerifQuery(keyspace string, routingKey []byte) ExecutableQuery { return &verifQuery{keyspace, routingKey} }
+
+func (q *verifQuery) borrowForExecution()                                                    {}
+func (q *verifQuery) releaseAfterExecution()                                                 {}
+func (q *verifQuery) execute(ctx context.Context, conn *Conn) *Iter                          { return nil }
+func (q *verifQuery) attempt(keyspace string, end, start time.Time, iter *Iter, h *HostInfo) {}
+func (q *verifQuery) retryPolicy() RetryPolicy                                               { return nil }
+func (q *verifQuery) speculativeExecutionPolicy() SpeculativeExecutionPolicy                 { return nil }
+func (q *verifQuery) GetRoutingKey() ([]byte, error)                                         { return q.rk, nil }
+func (q *verifQuery) Keyspace() string                                                       { return q.ks }
+func (q *verifQuery) Table() string                                                          { return "t" }
+func (q *verifQuery) IsIdempotent() bool                                                     { return true }
+func (q *verifQuery) withContext(context.Context) ExecutableQuery                            { return q }
+func (q *verifQuery) Attempts() int                                                          { return 0 }
+func (q *verifQuery) SetConsistency(c Consistency)                                           {}
+func (q *verifQuery) GetConsistency() Consistency                                            { return Quorum }
+func (q *verifQuery) Context() context.Context                                               { return context.Background() }
